@@ -100,3 +100,19 @@ func (c counter) Step(b byte)    { *c.depth++ }
 func (c counter) Backstep()      { *c.depth-- }
 
 var _ Walker = counter{}
+
+// Controls for NARROW.
+
+// BadNarrowLink keeps the next link number in a byte: 256 links need 257 states.
+func BadNarrowLink(labels []byte, next []uint8) {
+	for j := 0; j < len(labels); j++ {
+		next[0] = uint8(j + 1)
+	}
+}
+
+// GoodNarrowLink checks the range first.
+func GoodNarrowLink(labels []byte, next []uint8) {
+	for j := 0; j < len(labels) && j < 255; j++ {
+		next[0] = uint8(j + 1)
+	}
+}
